@@ -29,16 +29,11 @@ def run(ck, ctx):
         if f.qual == "Parser.__init__":
             continue           # the constructor stores the setting
         nread += 1
-        ok = False
-        for st in ast.walk(f.node):
-            if isinstance(st, ast.If) and any(x is node for x in ast.walk(st.test)):
-                atoms = st.test
-                is_not_silent = (isinstance(atoms, ast.UnaryOp) and isinstance(atoms.op, ast.Not)
-                                 and ast.unparse(atoms.operand) == "self.silent")
-                ok = is_not_silent and all(isinstance(b, ast.Raise) for b in st.body) and not st.orelse
-        ck.ob("T-FLAGFLOW.silent", f"{f.qual}: silent only guards a raise", ok,
-              "`silent` may only appear as `if not self.silent: raise ...`; used in any other way it could select "
-              "between two results", f.loc(node))
+        # who may read the flag: the two PLY error hooks (what they do with it is decided by evaluating them: O-silent)
+        ok = f.name in ("p_error", "t_error", "parse_statement")
+        ck.ob("T-FLAGFLOW.silent", f"{f.qual}: silent is read by an error hook / the statement driver only", ok,
+              "`silent` selects between raising and skipping in the error hooks; read anywhere else it could select between two results",
+              f.loc(node))
     ck.floor("T-FLAGFLOW.silent", 1)
     init = m.parser_method("__init__")
     stores = [n for n in ast.walk(init.node) if isinstance(n, ast.Assign) and any(
@@ -54,46 +49,11 @@ def run(ck, ctx):
     bases = [ast.unparse(b) for b in m.classes[base].node.bases]
     ck.ob("T-EXC", "SimpleDDLParserException subclasses Exception", bases == ["Exception"], str(bases),
           f"{m.classes[base].module.path}:{m.classes[base].node.lineno}")
-    # p_error / t_error raise DDLParserError
-    for hook in ("p_error", "t_error"):
-        f = m.parser_method(hook)
-        raises = [n for n in ast.walk(f.node) if isinstance(n, ast.Raise)]
-        ok = bool(raises) and all(isinstance(r.exc, ast.Call) and isinstance(r.exc.func, ast.Name)
-                                  and r.exc.func.id == "DDLParserError" for r in raises)
-        ck.ob("T-EXC", f"{f.qual} raises DDLParserError", ok, "silent=False must surface DDLParserError", f.loc())
-        other = [s for s in f.node.body if not isinstance(s, (ast.If, ast.Raise)) and not (isinstance(s, ast.Expr) and isinstance(s.value, ast.Constant))]
-        ck.ob("T-EXC", f"{f.qual} has no other effect", not other,
-              "the error hook must not alter parser state (results with silent=True/False must agree)", f.loc())
-    # PLY calls p_error(None) at end of input: the hook must not dereference its argument unguarded
-    pe = m.parser_method("p_error")
-    pname = [p for p in pe.params if p != "self"][0]
-    for n in ast.walk(pe.node):
-        if isinstance(n, (ast.Attribute, ast.Subscript)) and isinstance(n.value, ast.Name) and n.value.id == pname:
-            atoms = guard_atoms(pe.node, S.stmt_of(pe, n))
-            guarded = any(a in atoms for a in ((pname, True), (f"{pname} is not None", True), (f"{pname} is None", False),
-                                               (f"not {pname}", False)))
-            ck.ob("T-EXC", f"p_error: `{ast.unparse(n)}` is guarded against p=None", guarded,
-                  "PLY calls p_error(None) when the input ends inside a statement: an unguarded attribute access raises "
-                  "AttributeError instead of DDLParserError (silent=False) / instead of skipping (silent=True)", pe.loc(n))
-    # unknown output_mode
+    # (what p_error / t_error raise, that p_error tolerates p=None and that neither has another effect is decided by evaluating the hooks:
+    # O-silent, check_error_hooks)
+    # unknown output_mode: run() evaluated abstractly
+    _check_unknown_mode(ck, ctx)
     run_f = m.parser_method("run")
-    raises = [n for n in ast.walk(run_f.node) if isinstance(n, ast.Raise)]
-    ck.ob("T-MODE-CHECK", "run raises on unknown output_mode", len(raises) == 1, f"{len(raises)} raise statements in run()", run_f.loc())
-    for r in raises:
-        atoms = guard_atoms(run_f.node, r)
-        ck.ob("T-MODE-CHECK", "raise guarded by `output_mode not in dialect_by_name`",
-              atoms == [("output_mode not in dialect_by_name", True)] or atoms == [("output_mode in dialect_by_name", False)],
-              f"guards: {atoms}", run_f.loc(r))
-        exc = r.exc
-        ok = isinstance(exc, ast.Call) and isinstance(exc.func, ast.Name) and exc.func.id == "SimpleDDLParserException"
-        ck.ob("T-MODE-CHECK", "exception class is SimpleDDLParserException", ok, ast.unparse(exc)[:80] if exc else "", run_f.loc(r))
-        names = {n.id for n in ast.walk(exc) if isinstance(n, ast.Name)} if exc else set()
-        ck.ob("T-MODE-CHECK", "message is built from dialect_by_name (names the valid modes)", "dialect_by_name" in names,
-              "", run_f.loc(r))
-    S.t_dom(ck, ctx, "run",
-            lambda n: isinstance(n, ast.If) and "dialect_by_name" in ast.unparse(n.test) and "output_mode" in ast.unparse(n.test),
-            S.is_self_call("parse_data"), "Parser.run: mode validation dominates parse_data()",
-            "an unknown mode must be rejected before anything is parsed")
     # dialect_by_name is the table of output/dialects.py
     r = m.resolve_symbol(run_f.module, "dialect_by_name")
     ck.ob("T-MODE-CHECK", "dialect_by_name resolves to output/dialects.py", bool(r) and r[0] == "value" and r[1].name == "simple_ddl_parser.output.dialects",
@@ -116,3 +76,49 @@ def run(ck, ctx):
     ck.floor("O-silent", 12)
     ck.assumptions += ["PLY calls p_error exactly when an action-table entry is missing and t_error exactly when no lexer rule matches",
                        "exceptions thrown by actions on malformed values (int('abc'), KeyError) are declined (DESIGN 4 C16)"]
+
+
+def _check_unknown_mode(ck, ctx):
+    """Parser.run evaluated abstractly (objabs) with parse_data replaced by a recorder: for a mode that is not in dialect_by_name it
+    raises the package's SimpleDDLParserException, naming every valid mode, before anything is parsed; for every valid mode it does not"""
+    from ..objabs import run_tail, ShapeMismatch
+    from ..dcmodel import DCModel
+    from ..pyabs import PyRaise, Raised, LexUnknown, NonUniform
+    m = ctx.model
+    dc = ctx._get("dcmodel", lambda: DCModel(m))
+    valid = sorted(dc.dialect_by_name)
+    for mode in ("no_such_mode", "SQL", "", "postgresql"):
+        if mode in valid:
+            continue
+        detail = ""
+        try:
+            res, _d = run_tail(ctx, [], output_mode=mode)
+            ok, detail = False, f"returns {res!r:.100}"
+        except Raised as r:
+            rs = m.resolve_symbol(r.module, r.cls_name) if r.module is not None else None
+            names = [k[1] for k in m.mro(rs[1])] if rs and rs[0] == "class" else [r.cls_name]
+            ok = "SimpleDDLParserException" in names
+            if not ok:
+                detail = f"raises {r.cls_name}"
+            elif getattr(r, "ctor_args", None) is None:
+                raise AnalysisError(f"the message of `{r.text}` is outside the interpreted subset")
+            else:
+                msg = " ".join(str(a) for a in r.ctor_args)
+                missing = [v for v in valid if v not in msg]
+                ok = not missing
+                detail = f"the message {msg!r:.200} does not name the valid mode(s) {missing}" if missing else ""
+        except PyRaise as pr:
+            ok, detail = False, f"raises {type(pr.exc).__name__}: {pr.exc}"
+        except (LexUnknown, NonUniform, ShapeMismatch) as e:
+            raise AnalysisError(f"Parser.run outside the interpreted subset (output_mode={mode!r}): {e}")
+        ck.ob("T-MODE-CHECK", f"run(output_mode={mode!r}) raises SimpleDDLParserException naming the valid modes", ok,
+              "an unknown output_mode raises SimpleDDLParserException naming the valid modes" + ("" if ok else "; " + detail), "Parser.run (evaluated abstractly)")
+    bad = []
+    for mode in valid:
+        try:
+            run_tail(ctx, [], output_mode=mode)
+        except (Raised, PyRaise) as e:
+            bad.append(f"{mode}: {e}")
+        except (LexUnknown, NonUniform, ShapeMismatch) as e:
+            raise AnalysisError(f"Parser.run outside the interpreted subset (output_mode={mode!r}): {e}")
+    ck.ob("T-MODE-CHECK", f"run() accepts each of the {len(valid)} documented modes", not bad, "; ".join(bad)[:300], "Parser.run (evaluated abstractly)")
